@@ -12,13 +12,13 @@
    operators ([table_ok]; any number of levels, any prefix operators, the empty table included), every
    identifier chain, every expression, every fuel - no bound on depth or length. *)
 From P2 Require Import Base.Prelude Lex.Token Syn.Ast Syn.Parse Syn.Render Syn.ParseRel Syn.ParseProofs
-  Syn.ParseSound Syn.ParseCor.
+  Syn.ParseSound Syn.ParseTotal Syn.ParseCor.
 
-(* completeness: every well-formed rendering is parsed, as a whole, to exactly the tree it denotes *)
+(* completeness: every well-formed rendering is parsed, as a whole, to exactly the tree it denotes
+   ([parse] = Parser.Parse on the token list, with the linear fuel of C03_parse_total) *)
 Theorem C03_parse_complete : forall cfg ids, table_ok cfg = true ->
-  forall r e, wf cfg r = true -> erase cfg ids r = Some e ->
-  exists f0, forall f, (f0 <= f)%nat -> parse_fuel cfg f ids (flatten cfg r) = POk e.
-Proof. exact parse_complete. Qed.
+  forall r e, wf cfg r = true -> erase cfg ids r = Some e -> parse cfg ids (flatten cfg r) = POk e.
+Proof. exact parse_complete_exact. Qed.
 
 (* soundness: a successful parse accounts for every token - the whole input is a well-formed rendering of
    the returned tree (no truncation, no regrouping); [frag_toks]: tokens of the expression fragment *)
@@ -36,18 +36,18 @@ Proof. exact (fun cfg ids H => renders_unique cfg ids H). Qed.
    the random-redundant parenthesisation of the property *)
 Theorem C03_pp_roundtrip : forall cfg ids, table_ok cfg = true ->
   forall d r e, shape cfg r = true -> erase cfg ids r = Some e ->
-  exists f0, forall f, (f0 <= f)%nat -> parse_fuel cfg f ids (flatten cfg (pp cfg d r)) = POk e.
-Proof. exact (fun cfg ids H => pp_roundtrip cfg ids H). Qed.
+  parse cfg ids (flatten cfg (pp cfg d r)) = POk e.
+Proof. exact (fun cfg ids H => pp_roundtrip_exact cfg ids H). Qed.
 
 Corollary C03_pp_min_roundtrip : forall cfg ids, table_ok cfg = true ->
   forall r e, shape cfg r = true -> erase cfg ids r = Some e ->
-  exists f0, forall f, (f0 <= f)%nat -> parse_fuel cfg f ids (flatten cfg (pp_min cfg r)) = POk e.
-Proof. exact (fun cfg ids H => pp_roundtrip cfg ids H (fun _ => O)). Qed.
+  parse cfg ids (flatten cfg (pp_min cfg r)) = POk e.
+Proof. exact (fun cfg ids H => pp_roundtrip_exact cfg ids H (fun _ => O)). Qed.
 
 Corollary C03_pp_full_roundtrip : forall cfg ids, table_ok cfg = true ->
   forall r e, shape cfg r = true -> erase cfg ids r = Some e ->
-  exists f0, forall f, (f0 <= f)%nat -> parse_fuel cfg f ids (flatten cfg (pp_full cfg r)) = POk e.
-Proof. exact (fun cfg ids H => pp_roundtrip cfg ids H (fun r => if is_atom r then O else 1%nat)). Qed.
+  parse cfg ids (flatten cfg (pp_full cfg r)) = POk e.
+Proof. exact (fun cfg ids H => pp_roundtrip_exact cfg ids H (fun r => if is_atom r then O else 1%nat)). Qed.
 
 (* malformed input is rejected: what is not a rendering of any tree never yields an AST ... *)
 Theorem C03_reject_nonrendering : forall cfg ids, table_ok cfg = true ->
@@ -60,6 +60,21 @@ Theorem C03_reject_unbalanced : forall cfg ids, table_ok cfg = true ->
   forall f ts, frag_toks ts = true -> balanced ts = false ->
   forall e, parse_fuel cfg f ids ts <> POk e.
 Proof. exact (fun cfg ids H => reject_unbalanced cfg ids H). Qed.
+
+(* parser half of C04, for EVERY configuration (no side condition on the table: the empty table and a prefix
+   operator that is also the highest binary level included) and every token list of the full grammar:
+   the model never panics, and fuel (2*|ops|+12)*(|tokens|+2) always suffices - the number of calls of parse
+   functions is linear in the number of tokens; more fuel never changes a result *)
+Theorem C03_parse_no_panic : forall cfg f ids ts, parse_fuel cfg f ids ts <> PPanic.
+Proof. exact parse_no_panic. Qed.
+
+Theorem C03_parse_total : forall cfg ids ts f, (f >= fuel_for cfg ts)%nat ->
+  match parse_fuel cfg f ids ts with POk _ | PErr => True | PPanic | POOF => False end.
+Proof. exact parse_total. Qed.
+
+Theorem C03_parse_fuel_stable : forall cfg f ids ts r,
+  parse_fuel cfg f ids ts = r -> r <> POOF -> parse cfg ids ts = r.
+Proof. exact parse_fuel_stable. Qed.
 
 (* non-vacuity: the table  -  <  <=  <<  (ascending), prefix operators  -  (also binary, level 0) and  !  (pure).
    (a - b) << c  needs its parentheses,  a << b - c  needs none,  a - (b - c)  needs them on the right (left
@@ -102,3 +117,6 @@ Print Assumptions C03_pp_min_roundtrip.
 Print Assumptions C03_pp_full_roundtrip.
 Print Assumptions C03_reject_nonrendering.
 Print Assumptions C03_reject_unbalanced.
+Print Assumptions C03_parse_no_panic.
+Print Assumptions C03_parse_total.
+Print Assumptions C03_parse_fuel_stable.
